@@ -373,9 +373,11 @@ fn strat(kt: &'static str) -> impl Strategy<Value = Case> {
 }
 
 pub fn run(ctx: &Ctx, rep: &mut Report) {
-	rep.rule = "case = (key type, random message 0..511 B, load form); a fresh key of that type is generated by the library under test for every case (OpenSSL RNG; failing cases are stored with the concrete key). Oracle: JWK members == recomputation from the SPKI DER read with an own DER walker, no unexpected/private members, thumbprint input == RFC 7638 canonical text, signature of exact JWS length verifying under OpenSSL and ring with a key rebuilt from the JWK members, every other algorithm rejected, PEM/DER/traditional round trips preserve type, SPKI and private DER; for EC keys, in 5 of 12 cases the same key is also loaded from a hand-built SEC1 or PKCS#8 file with the public point in compressed, hybrid or uncompressed form and must give the same JWK, thumbprint input and verifying signatures; 3 of 11 RSA cases use a key generated by the harness with public exponent 3, 17 or 2^32+1 (JWK e must be the minimal big-endian encoding). Non-trivial = a coordinate, OKP key or signature component (r, s, RSA s) whose big-endian form starts with a zero octet; distinct = distinct (type, message, load form).".into();
+	rep.rule = "case = (key type, random message 0..511 B, load form); a fresh key of that type is generated by the library under test for every case (OpenSSL RNG; failing cases are stored with the concrete key). Oracle: JWK members == recomputation from the SPKI DER read with an own DER walker, no unexpected/private members, thumbprint input == RFC 7638 canonical text, signature of exact JWS length verifying under OpenSSL and ring with a key rebuilt from the JWK members, every other algorithm rejected, PEM/DER/traditional round trips preserve type, SPKI and private DER; for EC keys, in 5 of 12 cases the same key is also loaded from a hand-built SEC1 or PKCS#8 file with the public point in compressed, hybrid or uncompressed form and must give the same JWK, thumbprint input and verifying signatures; 3 of 11 RSA cases use a key generated by the harness with public exponent 3, 17 or 2^32+1 (JWK e must be the minimal big-endian encoding). A small corpus of keys with rare octet patterns (regress/C15) is replayed first. Non-trivial = a coordinate, OKP key or signature component (r, s, RSA s) whose big-endian form starts with a zero octet; distinct = distinct (type, message, load form).".into();
 	rep.assume("OpenSSL's SPKI encoding of the public key and OpenSSL's/ring's verification primitives are correct");
-	run_replays::<Case>(ctx, rep, "lib", &exec);
+	for kt in KEY_TYPES {
+		run_replays::<Case>(ctx, rep, &format!("lib-{kt}"), &exec);
+	}
 	if ctx.replay.is_some() {
 		return;
 	}
